@@ -138,6 +138,44 @@ pub fn run(a: &Args) -> Option<Report> {
     }
 }
 
+/// Different keys that the maps must tell apart by equality alone: a two-label key carrying one label twice next to a
+/// key sharing that label, chosen so that both fall into the same shard and carry the same 7-bit hash tag (the only
+/// stored keys a lookup is ever compared with).
+fn near_equal_keys(rep: &mut Report, r: &mut Rng, shards: usize) {
+    use metrics::Label;
+    for _ in 0..6 {
+        let name = *r.pick(&["m", "req", "a.b"]);
+        let (k, v) = (*r.pick(&["k", "zone"]), *r.pick(&["v", "eu", ""]));
+        let twice = Key::from_parts(name, vec![Label::new(k, v), Label::new(k, v)]);
+        let ht = twice.get_hash();
+        let mut other = None;
+        for w in 0..400_000u32 {
+            let cand = Key::from_parts(name, vec![Label::new(k, v), Label::new(k, format!("w{}", w))]);
+            let hc = cand.get_hash();
+            if (hc as usize & (shards - 1)) == (ht as usize & (shards - 1)) && (hc >> 57) == (ht >> 57) {
+                other = Some(cand);
+                break;
+            }
+        }
+        let other = match other {
+            Some(o) => o,
+            None => continue,
+        };
+        for order in 0..2 {
+            let reg: Reg = Registry::new(IdStorage::new());
+            let (first, second) = if order == 0 { (&other, &twice) } else { (&twice, &other) };
+            let kind = r.below(3) as u8;
+            let (id1, _, _) = goc(&reg, kind, first);
+            let (id2, _, kd2) = goc(&reg, kind, second);
+            let (l, _) = listing(&reg, kind);
+            rep.case(mix(ht, order as u64 + 31 * kind as u64), true);
+            if id1 == id2 || kd2 != KeyDesc::of(second).sorted() || l.len() != 2 || get(&reg, kind, first) != Some(id1) || get(&reg, kind, second) != Some(id2) {
+                rep.violation("C06:storage-shared-between-keys", jo! {"what" => "two different keys (one carries a label twice, the other shares that label) that fall into the same shard with the same hash tag were given one storage / one entry", "first" => KeyDesc::of(first).to_json(), "second" => KeyDesc::of(second).to_json(), "storage_ids" => J::A(vec![J::U(id1), J::U(id2)]), "entries_listed" => l.len()});
+            }
+        }
+    }
+}
+
 fn run_seq(a: &Args) -> Report {
     rt::quiet_panics();
     let mut rep = Report::new("C06", &a.leg, a.seed);
@@ -145,6 +183,7 @@ fn run_seq(a: &Args) -> Report {
     let hists = a.budget(1200, 120_000);
     let shards = std::thread::available_parallelism().map(|x| x.get()).unwrap_or(1).next_power_of_two();
     rep.count(&format!("registry_shards={}", shards), 1);
+    near_equal_keys(&mut rep, &mut r, shards);
     for _ in 0..hists {
         let reg: Reg = Registry::new(IdStorage::new());
         let nbase = *r.pick(&[1usize, 2, 3, 6, 40, 300]);
